@@ -220,8 +220,9 @@ public:
 
         bool advance_suspend_lk(Handle h, awaiter *awt) {
             subreg_t &l = _regs[h];
-            if (l._kicked || _closed) return false;
+            if (l._kicked) return false;
             l._pos++;
+            if (_closed) return false;
             if (l._pos == _pos) {
                 l._awt = awt;
                 return true;
